@@ -79,6 +79,13 @@ CHECKS = {
         note="trusted: linearity of the conversions in the unit constants (checked: uniform integer exponent), the CODATA values and the unit table typed into checks/c04.py; coverage is per executed path",
         technique="symbolic run of the real readers/writers with unit constants as indeterminates against a unit table (contracts on factors), exhaustive check of constants, absolute probes",
     ),
+    "C06": dict(
+        category="proof",
+        text="The real 1-D kernel is run on sympy symbols for all 64 (n1,n2)<=7 and equals the Gaussian moment as an exact polynomial identity (all real centres/exponents); normalisation constants for all 120 Cartesian triples l<=7 and the Cartesian-to-pure tables tfs[0..7] are decided exhaustively against the definitions of docs/basis.rst (solid harmonics rebuilt from the associated-Legendre definition, independent of tools/harmonics.py); error contract, segmentation prologue, convention epilogue (reverse=True on rows by basis 0 and columns by basis 1) and the screening bound (z3 lemma) of compute_overlap are structural obligations. The assembled floating-point matrix (symmetry, PSD, transpose, translation, conventions, equality with the inner products) is a bounded stand-in against an independent oracle.",
+        design_ref="DESIGN.md 6/C06",
+        note="trusted: sympy normal forms, the documentation's definitions, C10/C14 contracts; float accumulation only bounded; the structural obligations of compute_overlap report `undecided` on refactoring",
+        technique="direct symbolic execution of the real kernel (sympy), exhaustive evaluation of tables against documented definitions, z3 lemma, bounded independent oracle for the assembled matrix",
+    ),
     "C07": dict(
         category="proof",
         text="The format-level readers and the IOData constructor are havoc'ed (any result, any subclass of Exception, for every possible file content at once) and the real load_one / load_many / warning re-issuer / LineIterator / error classes are executed symbolically: only FileFormatError (before the file is opened) or LoadError escapes, the message names the file and the iterator's line number, the file is closed on every exit path incl. generator close, LineIterator keeps lineno == lines taken - pushed back. Termination: one `decreases` obligation per parser loop over the ghost measure lines-left + push-back depth, discharged by path enumeration; nine loops carry a declared, unproved argument (listed in the evidence). Corpus truncation/mutation is a bounded cross-check only.",
